@@ -1,8 +1,8 @@
 import sys,os,json,collections
-sys.path.insert(0,'/verif'); sys.argv=['check']
+sys.path.insert(0,'/verif'); argv0=sys.argv[:]; sys.argv=['check']
 import importlib.util, importlib.machinery
 loader=importlib.machinery.SourceFileLoader('chk','/verif/check'); spec=importlib.util.spec_from_loader('chk',loader); chk=importlib.util.module_from_spec(spec); loader.exec_module(chk)
-suite=sys.argv[1] if len(sys.argv)>1 else os.environ['SUITE']
+suite=argv0[1] if len(argv0)>1 else os.environ['SUITE']
 with chk.Lock():
     print(chk.prepare())
     r=chk.run_suite(suite,'quick',1)
